@@ -1129,3 +1129,79 @@ func detectorStripsDollarRule(c *Ctx, r *Report, p *Prov, rule string) {
 		}
 	}
 }
+
+// flagSetsAttachedRule (C18-R3): a switch of the redact command exists for the user only if the
+// flag set it is bound on belongs to that command: bound on cmd.Flags() / cmd.PersistentFlags()
+// directly, or on a pflag.NewFlagSet value that an AddFlagSet call hands to such a set. A set
+// that is filled and never attached makes every job that uses one of its switches end in
+// "unknown flag": an accepted combination is refused.
+func flagSetsAttachedRule(c *Ctx, r *Report, rule string) {
+	an := c.anchors()
+	if an == nil || an.Main == nil || an.RedactClosure == nil {
+		return
+	}
+	const pfx = "(*github.com/spf13/pflag.FlagSet)."
+	// fs value -> the sets it is added to
+	addedTo := map[ssa.Value][]ssa.Value{}
+	allInstrs(an.Main, func(i ssa.Instruction) {
+		call, ok := i.(*ssa.Call)
+		if !ok || calleeKey(&call.Call) != pfx+"AddFlagSet" || len(call.Call.Args) < 2 {
+			return
+		}
+		src := canon(peel(call.Call.Args[1]))
+		addedTo[src] = append(addedTo[src], canon(peel(call.Call.Args[0])))
+	})
+	var attached func(fs ssa.Value, depth int) (bool, bool) // attached, decided
+	attached = func(fs ssa.Value, depth int) (bool, bool) {
+		fs = canon(peel(fs))
+		call, ok := fs.(*ssa.Call)
+		if !ok || depth > 4 {
+			return false, false
+		}
+		switch calleeKey(&call.Call) {
+		case "(*github.com/spf13/cobra.Command).Flags", "(*github.com/spf13/cobra.Command).PersistentFlags", "(*github.com/spf13/cobra.Command).LocalFlags":
+			return true, true
+		case "github.com/spf13/pflag.NewFlagSet":
+			for _, dst := range addedTo[fs] {
+				if ok, dec := attached(dst, depth+1); ok || !dec {
+					return ok, dec
+				}
+			}
+			return false, true
+		}
+		return false, false
+	}
+	captured := map[ssa.Value]bool{}
+	for _, fv := range an.FlagAlloc {
+		captured[fv] = true
+	}
+	seen := map[string]bool{}
+	allInstrs(an.Main, func(i ssa.Instruction) {
+		call, ok := i.(*ssa.Call)
+		if !ok {
+			return
+		}
+		k := calleeKey(&call.Call)
+		if !strings.HasPrefix(k, pfx) || len(call.Call.Args) < 3 {
+			return
+		}
+		m := strings.TrimPrefix(k, pfx)
+		if !strings.HasSuffix(m, "VarP") && !strings.HasSuffix(m, "Var") {
+			return
+		}
+		name, isC := constString(call.Call.Args[2])
+		if !isC || an.FlagAlloc[name] != call.Call.Args[1] || seen[name] {
+			return
+		}
+		if _, used := an.FlagFree[an.RedactClosure][name]; !used {
+			return
+		}
+		ok2, decided := attached(call.Call.Args[0], 0)
+		if !decided {
+			return // a flag set of a shape this rule does not read: no verdict
+		}
+		seen[name] = true
+		r.Check(ok2, rule, "main:flag-set-attached(--"+name+")", c.InstrPos(i), "--"+name+" is bound on a flag set of a command",
+			"--"+name+" is bound on a flag set that no AddFlagSet call hands to a command: the redact command answers \"unknown flag\" to every job that uses it")
+	})
+}
